@@ -166,6 +166,29 @@ CHECKS["C12"] = dict(
          "library goroutine is left, nothing panicked; each scenario runs in its own process.",
     ref="DESIGN.md 5 C12, 3.2", note=LIFE_NOTE, technique=LIFE_TECH)
 
+ROUTE_TECH = ("TLA+ guarantee module (Routing.tla) + Channel.tla exhaustive at design level; TLC-enumerated programs and free "
+              "workloads executed on real code; TLC trace validation (RoutingTrace.tla)")
+CHECKS["C05"] = dict(
+    engine="prog", category="model_checking",
+    text="Routing.tla states, over the router-table events logged inside the router mutex and the calls' receive events: a "
+         "response is delivered only to a registered request of that node, a non-streaming request gets at most one, what a "
+         "call consumes under node n was delivered by node n's channel for this very call (message ids are manager-wide), "
+         "nothing is consumed after the call ended, every reply shown to a quorum function carries the stamp of the handler "
+         "that produced it for this call. Checked on 1596 TLC-enumerated programs (every call variant x ways of ending incl. "
+         "late replies after return/cancel) x send buffer 0/2, and on free workloads (6 goroutines, three overlapping "
+         "configurations, late replies, errors, cancellations at arbitrary instants); AtMostOneResponse etc. exhaustively on "
+         "Channel.tla.",
+    ref="DESIGN.md 5 C05, 3.0 (Routing), 3.2", note=PROG_NOTE, technique=ROUTE_TECH)
+CHECKS["C18"] = dict(
+    engine="prog", category="model_checking",
+    text="NoResidue: in Channel.tla a settled healthy node has an empty router table (exhaustive); on real executions the "
+         "router count logged under the mutex must equal the specification's at every event and, when every invocation and "
+         "handler of a program has returned, the tables read through a verif accessor must be empty and no per-call "
+         "goroutine (async/correctable loop, cancellation watcher) may be left. Programs cover every call kind x every way "
+         "of ending (all replies, quorum before all replies, exhaustion by errors, cancellation with pending handlers, "
+         "stream completion); free workloads add volume.",
+    ref="DESIGN.md 5 C18, 3.0 (Routing), 3.2", note=PROG_NOTE, technique=ROUTE_TECH)
+
 PENDING = {
     "C03": "check under construction (Fifo layer, DESIGN.md 11 step 3)",
     "C04": "check under construction (Fifo layer, DESIGN.md 11 step 3)",
@@ -206,8 +229,9 @@ def main():
              "kind_free_text": "TLC on specs/Sort.tla (SortGen enumeration, SortTrace validation) + drive sort"},
             {"name": "codec", "path": "tools/check_codec.py", "serves_properties": ["C13"],
              "kind_free_text": "TLC on specs/Codec.tla (CodecGen lattice, CodecTrace validation) + drive codec"},
-            {"name": "prog", "path": "tools/check_prog.py", "serves_properties": ["C03", "C04"],
-             "kind_free_text": "TLC on specs/Fifo.tla (FifoGen program enumeration, FifoTrace validation) + drive prog"},
+            {"name": "prog", "path": "tools/check_prog.py", "serves_properties": ["C03", "C04", "C05", "C18"],
+             "kind_free_text": "TLC on specs/Fifo.tla, specs/Routing.tla (FifoGen program enumeration, FifoTrace/RoutingTrace "
+                               "validation) + drive prog / drive m3; Channel.tla at design level"},
             {"name": "life", "path": "tools/check_life.py", "serves_properties": ["C08", "C09", "C10", "C12"],
              "kind_free_text": "TLC on specs/Channel.tla (ChannelMC configs) + drive life (gated scenarios, one process each) "
                                "+ drive m3 (free workloads) + TLC trace validation with LifeTrace.tla / RoutingTrace.tla"},
